@@ -127,6 +127,7 @@ theorem un_agree_aux (cB cG : Cfg) (hws : w.SupU false)
       | flt k => simp [unAny]
       | str s => simp [unAny]
       | bytes h => simp [unAny]
+      | mdict d kvs => simp [wellTypedAny] at hwt
       | _ => simp [unAny]
     refine ⟨hAny, ?_⟩
     intro m
@@ -207,6 +208,7 @@ theorem un_agree_aux (cB cG : Cfg) (hws : w.SupU false)
           rw [wellTyped] at hwt
           have hel := (wellTypedKV_iff w kt vt kvs).mp hwt
           simp only [Ty.supU, Bool.and_eq_true] at hs
+          replace hs := hs.1
           rw [scalarKeys] at hsk
           have hskl := (scalarKeysKV_iff kvs).mp hsk
           simp at hx
